@@ -176,17 +176,30 @@ def _iterable(obj):
     return True
 
 
-@lru_cache(maxsize=128, typed=False)
+def _unit_rule_cache(func):
+    # Unit.__hash__ and Unit.__eq__ do not distinguish two registries with equal
+    # contents: the identity of the operands' registries is part of the key, so
+    # that a result bound to one registry is never handed out for another one
+    cached = lru_cache(maxsize=128, typed=False)(lambda _ids, *args: func(*args))
+
+    def wrapper(*args):
+        return cached(tuple([id(getattr(a, "registry", None)) for a in args]), *args)
+
+    wrapper.cache_clear = cached.cache_clear
+    return wrapper
+
+
+@_unit_rule_cache
 def _sqrt_unit(unit):
     return 1, unit**0.5
 
 
-@lru_cache(maxsize=128, typed=False)
+@_unit_rule_cache
 def _cbrt_unit(unit):
     return 1, unit ** (1.0 / 3.0)
 
 
-@lru_cache(maxsize=128, typed=False)
+@_unit_rule_cache
 def _multiply_units(unit1, unit2):
     try:
         ret = (unit1 * unit2).simplify()
@@ -198,7 +211,7 @@ def _multiply_units(unit1, unit2):
     return ret.as_coeff_unit()
 
 
-@lru_cache(maxsize=128, typed=False)
+@_unit_rule_cache
 def _preserve_units(unit1, unit2=None):
     if unit2 is None or unit1.dimensions is not temperature:
         return 1, unit1
@@ -207,7 +220,7 @@ def _preserve_units(unit1, unit2=None):
     return 1, unit1
 
 
-@lru_cache(maxsize=128, typed=False)
+@_unit_rule_cache
 def _difference_units(unit1, unit2=None):
     if unit1.dimensions is not temperature:
         return _preserve_units(unit1, unit2)
@@ -246,17 +259,17 @@ def _difference_units(unit1, unit2=None):
         )
 
 
-@lru_cache(maxsize=128, typed=False)
+@_unit_rule_cache
 def _power_unit(unit, power):
     return 1, unit**power
 
 
-@lru_cache(maxsize=128, typed=False)
+@_unit_rule_cache
 def _square_unit(unit):
     return 1, unit * unit
 
 
-@lru_cache(maxsize=128, typed=False)
+@_unit_rule_cache
 def _divide_units(unit1, unit2):
     try:
         ret = (unit1 / unit2).simplify()
@@ -265,7 +278,7 @@ def _divide_units(unit1, unit2):
     return ret.as_coeff_unit()
 
 
-@lru_cache(maxsize=128, typed=False)
+@_unit_rule_cache
 def _reciprocal_unit(unit):
     return 1, unit**-1
 
